@@ -15,7 +15,7 @@ pub fn home() -> String {
 fn cargo_in_repo(args: &[&str]) -> Result<(), String> {
     let out = Command::new("cargo")
         .args(args)
-        .current_dir("/repo")
+        .current_dir(std::env::var("VERIF_REPO").unwrap_or_else(|_| "/repo".to_string()))
         .env_remove("RUSTFLAGS")
         .env("CARGO_NET_OFFLINE", "true")
         .output()
